@@ -131,6 +131,8 @@ class PList:
     """Python list with concrete length (elements may be symbolic). Identity = this wrapper."""
     kind = 'plist'
 
+    builder = False
+
     def __init__(self, items: list, fresh: bool = False, pytype: str = 'list') -> None:
         self.items = list(items)
         self.fresh = fresh
@@ -778,7 +780,7 @@ class Interp:
                     continue
         self.run_invariant_loop(st, env, spec, ordinal, test=lambda: self.eval(st.test, env), pre_body=None)
 
-    def run_invariant_loop(self, st, env, spec, ordinal, test, pre_body):
+    def run_invariant_loop(self, st, env, spec, ordinal, test, pre_body, on_havoc=None):
         fn = self.current_fn[-1]
         tag = f'{self.label}.loop{ordinal}' if getattr(self, 'label', '') and self.depth <= 1 else f'{fn.qualname}.loop{ordinal}'
         old_view = self.fn_old_view()
@@ -787,6 +789,8 @@ class Interp:
             self.path.oblige(f'{tag}.init.{name}', goal, st.lineno)
         # 2. havoc everything the body may modify
         self.havoc_loop_targets(st, env, spec)
+        if on_havoc is not None:
+            on_havoc()
         for name, goal in spec.eval_invariants(self, env, old_view):
             self.path.assume(goal)
         variant0 = spec.eval_decreases(self, env, old_view)
@@ -860,6 +864,13 @@ class Interp:
     def havoc_value(self, cur, name):
         if isinstance(cur, Box):
             return self.fresh_like(cur, name)
+        if isinstance(cur, PList) and all(isinstance(x, str) or is_sym_str(x) for x in cur.items):
+            # a list of strings that the loop only appends to and that is later ''.join()ed: a string builder.
+            # Havoc = arbitrary accumulated content; len()/indexing of a builder is refused (Unsupported).
+            cur.items = [self.fresh(name + '_acc', z3.StringSort())]
+            cur.builder = True
+            self.used_summaries.add('list of str used as a string builder (append/+=/join only)')
+            return cur
         if isinstance(cur, (PList, PDict, Obj)):
             raise Unsupported(f'loop modifies {name}: a container with concrete shape cannot be havocked; '
                               f'use a symbolic container in the harness')
@@ -887,16 +898,28 @@ class Interp:
         idx_name = f'__idx{ordinal}'
         seq, length, getter = self.indexable(it, st.lineno)
         env.set(idx_name, 0)
+        pos0 = it.pos if isinstance(it, SIter) else None
 
         def test():
+            if pos0 is not None:   # keep the iterator's ghost position in step with the loop index
+                it.pos = self.binop(ast.Add(), pos0, env.lookup(idx_name), st.lineno)
             return self.compare_op(ast.Lt(), env.lookup(idx_name), length)
 
         def pre_body():
             i = env.lookup(idx_name)
             self.assign(st.target, getter(i), env)
             env.set(idx_name, self.binop(ast.Add(), i, 1, st.lineno))
+            if pos0 is not None:
+                it.pos = self.binop(ast.Add(), pos0, env.lookup(idx_name), st.lineno)
         spec.idx_name = idx_name
-        self.run_invariant_loop(st, env, spec, ordinal, test, pre_body)
+
+        def sync():
+            # facts about any for-loop over a sequence: the hidden index is within 0..len
+            zi = to_z3(env.lookup(idx_name))
+            self.path.assume(z3.And(zi >= 0, zi <= to_z3(length)))
+            if pos0 is not None:
+                it.pos = self.binop(ast.Add(), pos0, env.lookup(idx_name), st.lineno)
+        self.run_invariant_loop(st, env, spec, ordinal, test, pre_body, on_havoc=sync)
 
     def indexable(self, it, lineno):
         """(seq, length, getter) for the iterables a for-loop with an invariant may range over."""
@@ -909,6 +932,10 @@ class Interp:
             else:
                 length = max(length, 0)
             return it, length, (lambda i: self.binop(ast.Add(), it.start, i, lineno))
+        if isinstance(it, SIter):
+            p0 = to_z3(it.pos)
+            n = to_z3(it.length) - p0
+            return it, z3.If(n < 0, 0, n), (lambda i: it.seq[p0 + to_z3(i)])
         if isinstance(it, SSeq):
             return it, z3.Length(it.expr), (lambda i: self.seq_at(it.expr, i))
         if is_sym_str(it) or is_sym_seq(it):
@@ -1083,11 +1110,18 @@ class Interp:
     def ex_BoolOp(self, node, env):
         is_and = isinstance(node.op, ast.And)
         if self.spec_mode:
-            vals = [self.truth(self.eval(v, env)) for v in node.values]
-            if all(isinstance(v, bool) for v in vals):
-                return all(vals) if is_and else any(vals)
+            vals = []
+            for sub in node.values:
+                v = self.truth(self.eval(sub, env))
+                if isinstance(v, bool):
+                    if v != is_and:          # False in an `and`, True in an `or`: decided (short circuit)
+                        return v
+                    continue
+                vals.append(v)
+            if not vals:
+                return is_and
             zs = [to_z3(v) for v in vals]
-            return z3.And(*zs) if is_and else z3.Or(*zs)
+            return (z3.And(*zs) if is_and else z3.Or(*zs)) if len(zs) > 1 else zs[0]
         result = None
         for i, sub in enumerate(node.values):
             result = self.eval(sub, env)
@@ -1749,6 +1783,15 @@ class ZipVal:
 @dataclass
 class GenVal:
     items: list
+
+
+class SIter:
+    """A one-shot iterator over a symbolic sequence: consumption persists across loops and calls (ghost position)."""
+    def __init__(self, seq, pos, length=None) -> None:
+        self.seq = seq      # z3 Seq, or (with an explicit length) a z3 Array Int -> element
+        self.pos = pos      # z3 Int / int: index of the next element to hand out
+        self.length = length if length is not None else z3.Length(seq)
+        self.oid = next(_obj_counter)
 
 
 class Noop:
